@@ -80,7 +80,10 @@ class BlockArray:
         return result  # x[k] returns a jax array
 
     def __setitem__(self, key, value):
-        self.arrays[key] = value
+        arrays = list(self.arrays)
+        arrays[key] = value
+        # same conversion and dtype check as the constructor
+        self.arrays = BlockArray(arrays).arrays
 
     @staticmethod
     def blockarray(iterable):
@@ -93,10 +96,22 @@ class BlockArray:
 
 # Register BlockArray as a jax pytree, without this, jax autograd won't work.
 # taken from what is done with tuples in jax._src.tree_util
+def _unflatten(_, xs):
+    # jax transformations (vmap, jacfwd, jacrev, hessian, eval_shape, ...) rebuild
+    # the tree with placeholder leaves (object(), None, ShapeDtypeStruct, ...) that
+    # must be stored as they are, not converted with jnp.array
+    xs = list(xs)
+    if all(isinstance(x, jnp.ndarray) for x in xs):
+        return BlockArray(xs)
+    ba = object.__new__(BlockArray)
+    ba.arrays = xs
+    return ba
+
+
 jax.tree_util.register_pytree_node(
     BlockArray,
     lambda xs: (xs, None),  # to iter
-    lambda _, xs: BlockArray(xs),  # from iter
+    _unflatten,  # from iter
 )
 
 
